@@ -249,6 +249,10 @@ fn memory_world(ctx: &mut Ctx) {
     let size = SIZES[ctx.plan(SIZES.len() as u64) as usize];
     let warm = 4usize;
     let more = 50 + ctx.plan(100) as usize;
+    // what the subscriber's connection does after the warm-up: stays stalled; its write side breaks
+    // (every write fails from then on) while the read side stays silent; or the subscriber closes
+    // and the application keeps publishing without ever calling recv
+    let variant = (ctx.idx / 2) % 3;
     let result: Rc<RefCell<Option<(isize, isize, bool)>>> = Rc::new(RefCell::new(None));
     let r2 = result.clone();
     rt::task::spawn_local("app", async move {
@@ -276,6 +280,18 @@ fn memory_world(ctx: &mut Ctx) {
                 return world::park().await;
             }
         }
+        match variant {
+            1 => {
+                v.conn.inject_write_error(1, std::io::ErrorKind::BrokenPipe);
+                rt::count("fault_write_error");
+            }
+            2 => {
+                v.close();
+                // the peer is gone; keep a handle-less placeholder so that the code below is uniform
+                v = RawPeer::connect(&ep).expect("connect");
+            }
+            _ => {}
+        }
         oracle::alloc_mark();
         for _ in 0..more {
             if sock.send(msg.clone()).await.is_err() {
@@ -299,7 +315,7 @@ fn memory_world(ctx: &mut Ctx) {
         Some((live, peak, _)) => {
             let bound = 2 * (131_072 + size as isize + 64) + 65_536;
             if live > bound {
-                ctx.violation("memory_grows_with_stalled_subscriber", format!("{}: publishing {more} further messages of {size} bytes to a stalled subscriber grew the live heap by {live} bytes (peak {peak}); bound {bound} is independent of the number of messages", kind.name()));
+                ctx.violation("memory_grows_with_stalled_subscriber", format!("{}: publishing {more} further messages of {size} bytes to a subscriber that {} grew the live heap by {live} bytes (peak {peak}); bound {bound} is independent of the number of messages", kind.name(), ["is stalled", "is stalled and whose connection then fails every write", "has closed its connection (the application never calls recv)"][variant as usize]));
             }
             ctx.nontrivial();
             ctx.probe("memory_bound_judged");
@@ -321,7 +337,7 @@ pub fn def() -> PropDef {
     PropDef {
         id: "C12",
         level: "fault_enumeration",
-        rule: "slow_world: case index walks socket kind (PUB/XPUB) x stall pattern of the first victim {accept k bytes then stall (k around the 128 KiB mark), stall/resume between messages a and b, never drain, broken pipe after message a, co-operative yields}; message sizes drawn from a grid around 128 KiB; one healthy subscriber; memory_world: one stalled subscriber, 50..149 further messages, heap growth measured by a counting allocator; non-trivial = the run reached its judgement; distinct = distinct (plan, schedule, transport) hashes",
+        rule: "slow_world: case index walks socket kind (PUB/XPUB) x stall pattern of the first victim {accept k bytes then stall (k around the 128 KiB mark), stall/resume between messages a and b, never drain, broken pipe after message a, co-operative yields}; message sizes drawn from a grid around 128 KiB; one healthy subscriber; memory_world: one subscriber that stalls / stalls and then fails every write / closes while the application never calls recv, 50..149 further messages, heap growth measured by a counting allocator; non-trivial = the run reached its judgement; distinct = distinct (plan, schedule, transport) hashes",
         assumptions: &["'accepts every write' = the subscriber's pipe never answers Pending to a write (short writes allowed)", "memory bound asserted: 2 x (128 KiB + message size) + 64 KiB of live heap growth, independent of the number of messages published"],
         strata: vec![
             Stratum { name: "slow_world", quick: 30_000, thorough: (300_000) * 4, exhaustive: (false, false), run: slow_world, what: "publisher completion, healthy subscriber complete, victim stream = prefix of an ordered subsequence" },
